@@ -1,4 +1,6 @@
 import TxdbusModel.Proofs.Proto.Handoff
+import TxdbusModel.Proofs.Proto.WithMsg
+import TxdbusModel.Proofs.Msg.Tables
 /-!
 # C04 - message framing is independent of how the byte stream is split into reads
 
@@ -27,6 +29,12 @@ reads included -, ALL byte contents):
 * `loop_bounded`                  one read delivers at most (buffered + read bytes) / 16 messages and
   conserves every byte (the loop of the model is a well-founded recursion on the buffer length).
 * witnesses of the two repaired defects on models of the old code.
+* composed with C03 (extension 2026-09-30; section "C04 composed with C03" below):
+  `wellFormed_of_constructed`  every message the C03 model of message.py constructs is `Spec.WellFormed`;
+  `delivers_parsed_messages` (+ `_c01`, `_after_handshake`, `_after_handshake_c01`, `receive_delivers_sent_c01`)
+  constructed messages sent back to back, cut into reads in any way: the receiver delivers exactly their
+  frames and C03's `parseMessage` on the delivered frames returns exactly the messages sent (type, serial,
+  flags, header attributes, body), in order, each once; buffer empty.
 -/
 namespace Txdbus.Proto
 open Txdbus.Gen.ProtoConst
@@ -163,7 +171,9 @@ theorem handoff (A : Auth α) (s : St α) (hs : List Bytes) (last rest : Bytes) 
     · rw [hrf.1]; exact hb.2.2
 
 /-- **C04 in one sentence, binary mode.**  The messages `ms` (well-formed for framing - which every
-message `_marshal` constructs is: `wellFormed_of_layout` applied to C03 `marshal_wellformed`) are sent
+message `_marshal` constructs is: `wellFormed_of_constructed` below = `wellFormed_of_layout` applied to C03
+`marshal_wellformed`; `delivers_parsed_messages` is this theorem for constructed messages, continued through
+`parseMessage`) are sent
 back to back and the stream is cut into reads in ANY way: the receiver's effects are exactly the
 deliveries of `ms`, each once, in order, and nothing stays buffered. -/
 theorem delivers_messages_sent (A : Auth α) (s : St α) (ms reads : List Bytes)
@@ -306,6 +316,326 @@ example : msgsOf (run okAuth (St.init true ()) [beginLine ++ [13], 10 :: crlfMsg
   (handoff okAuth (St.init true ()) [] beginLine crlfMsg _ () () (Or.inl rfl) rfl rfl rfl rfl
     (by decide) rfl rfl (by simp) (by decide)).2.1
 
+/-! ## C04 composed with C03 (extension 2026-09-30): the frames of constructed messages parse back to the messages sent
+
+The theorems above end at `Effect.msg raw` and take "well-formed for framing" as a premise.  Below, the
+messages are the ones C03's code model of message.py CONSTRUCTS (`Msg.construct`: the four constructors and
+`_marshal`), the receiver is the framing model followed by C03's model of `parseMessage` on every delivered
+frame (`parseFrames` / `receive`, Proto/Receive.lean - what `rawDBusMessageReceived` does first), and the
+tables of message.py are the ones extracted from the repository (`Gen.Message.tables`, with
+`Msg.genTables_ok` re-checking on every run the facts C03's proofs use).  Proofs: Proofs/Proto/WithMsg.lean,
+from C03's `marshal_wellformed`, `parse_marshal`, `parse_marshal_c01`, `parse_marshal_no_body` (their
+table-generic forms in Proofs/Msg - the statements Properties/C03.lean instantiates with the same tables).
+
+Vocabulary (Proto/Receive.lean, Proofs/Proto/WithMsg.lean): `Sent β` = (constructed message `msg`, the receiver's
+descriptor list `fds` at the moment it parses that message, `decoded` = what the body codec decodes the body to);
+`x.expected T` = the `Msg.View` of `x.msg` (message type, serial, both flags, every header attribute as a Python
+value) with body `some x.decoded` (`none` without signature); `SentOK T C na maxLen x` = the premises of C03
+`marshal_wellformed` + `parse_marshal` for `x` (some constructor call at some counter value ≥ 1, NUL-free
+signature, returned `x.msg`; the codec round-trips this body: `hC`); `SentC01 T na maxLen fuel x` = the premises
+of `parse_marshal_c01` or of `parse_marshal_no_body` (codec = C01's code model `wireCodec fuel`, nothing assumed
+about it). -/
+
+/-- **The bridge (named).**  For every message the C03 model constructs and serialises successfully - the
+premises of C03 `marshal_wellformed`, nothing more: any body codec `C`, any of the four constructor calls `c`
+made when the counter stood at `st.nextSerial ≥ 1`, `signature` argument without NUL, size limit of the class at
+most 2^27 - the raw bytes satisfy C04's `Spec.WellFormed` (at least 16 bytes; the UINT32 body length and the
+UINT32 header-array length of the fixed header announce exactly the length of the message). -/
+theorem wellFormed_of_constructed {β : Type} (C : Msg.BodyCodec β) (na : Char → Bool) (maxLen : Nat)
+    (hmax : maxLen ≤ Msg.Spec.maxMessage) (st st' : Msg.St) (c : Msg.Call β) (m : Msg.Msg β)
+    (hs : 1 ≤ st.nextSerial) (hsig : Msg.Main.SigNoNul c)
+    (h : Msg.construct Gen.Message.tables C na maxLen st c = (st', .ok m)) :
+    Spec.WellFormed m.raw :=
+  WithMsg.wellFormed_of_constructed_gen Gen.Message.tables Msg.genTables_ok C na maxLen hmax st st' c m hs hsig h
+
+/-- The two facts the composition needs per sent message - its frame is well-formed for framing and the
+receiver's `parseMessage` returns the expected content - under the premises of C03's theorems (`hC` carried
+inside `SentOK`). -/
+theorem sent_wellFormed_and_parses {β : Type} (C : Msg.BodyCodec β) (na : Char → Bool) (maxLen : Nat)
+    (hmax : maxLen ≤ Msg.Spec.maxMessage) (x : Sent β) (h : WithMsg.SentOK Gen.Message.tables C na maxLen x) :
+    Spec.WellFormed x.msg.raw ∧
+    ∃ m', Msg.parseMessage Gen.Message.tables C x.msg.raw x.fds = .ok m' ∧
+      m'.view Gen.Message.tables = x.expected Gen.Message.tables :=
+  ⟨WithMsg.wellFormed_of_sentOK _ Msg.genTables_ok C na maxLen hmax x h,
+   WithMsg.parsesTo_of_sentOK _ Msg.genTables_ok C na maxLen x h⟩
+
+/-- ... and with C01's codec in the place of `C`: no hypothesis about the codec. -/
+theorem sent_wellFormed_and_parses_c01 (na : Char → Bool) (maxLen : Nat) (hmax : maxLen ≤ Msg.Spec.maxMessage)
+    (fuel : Nat) (x : Sent PyVal) (h : WithMsg.SentC01 Gen.Message.tables na maxLen fuel x) :
+    Spec.WellFormed x.msg.raw ∧
+    ∃ m', Msg.parseMessage Gen.Message.tables (Msg.wireCodec fuel) x.msg.raw x.fds = .ok m' ∧
+      m'.view Gen.Message.tables = x.expected Gen.Message.tables :=
+  ⟨WithMsg.wellFormed_of_sentC01 _ Msg.genTables_ok na maxLen hmax fuel x h,
+   WithMsg.parsesTo_of_sentC01 _ Msg.genTables_ok na maxLen fuel x h⟩
+
+/-- **C04 ∘ C03, binary mode.**  `xs` are sent messages - each constructed by the C03 model under the premises
+of `parse_marshal` (`SentOK`: any constructor, any optional arguments, any body the codec accepted; `hC` for the
+body codec) - serialised back to back; the stream is cut into reads in ANY way (any number of reads, any
+lengths, empty reads included: `reads.flatten = …` is the only premise on `reads`); the receiver is authenticated
+with nothing buffered.  Then:
+* the effects are exactly the deliveries of the frames `x.msg.raw`, in order, each once (no other effect);
+* C03's `parseMessage` on the delivered frames (each with the receiver's descriptor list for that delivery)
+  succeeds on every one and yields, in order, exactly the contents `x.expected`: message type, serial, both
+  flags, all header attributes, body;
+* nothing stays buffered. -/
+theorem delivers_parsed_messages {β : Type} (C : Msg.BodyCodec β) (na : Char → Bool) (maxLen : Nat)
+    (hmax : maxLen ≤ Msg.Spec.maxMessage) (A : Auth α) (s : St α) (xs : List (Sent β)) (reads : List Bytes)
+    (ha : s.authenticated = true) (hbuf : s.buffer = []) (hnext : s.nextMsgLen = 0)
+    (hxs : ∀ x ∈ xs, WithMsg.SentOK Gen.Message.tables C na maxLen x)
+    (h : reads.flatten = (xs.map (·.msg.raw)).flatten) :
+    (run A s reads).2 = xs.map (fun x => Effect.msg x.msg.raw) ∧
+    (parseFrames Gen.Message.tables C (msgsOf (run A s reads).2) (xs.map (·.fds))).map
+        (Except.map (Msg.Msg.view Gen.Message.tables))
+      = xs.map (fun x => .ok (x.expected Gen.Message.tables)) ∧
+    (run A s reads).1.buffer = [] := by
+  have hwf : ∀ m ∈ xs.map (·.msg.raw), Spec.WellFormed m := by
+    intro m hm
+    obtain ⟨x, hx, rfl⟩ := List.mem_map.1 hm
+    exact (sent_wellFormed_and_parses C na maxLen hmax x (hxs x hx)).1
+  have hd := delivers_messages_sent A s (xs.map (·.msg.raw)) reads ha hbuf hnext hwf h
+  refine ⟨by rw [hd.1, List.map_map]; rfl, ?_, hd.2⟩
+  rw [hd.1, WithMsg.msgsOf_map_msg]
+  exact WithMsg.parseFrames_sent _ C xs (fun x hx => (sent_wellFormed_and_parses C na maxLen hmax x (hxs x hx)).2)
+
+/-- **C04 ∘ C03 ∘ C01, binary mode**: `delivers_parsed_messages` with C01's code model of `marshal.marshal` /
+`marshal.unmarshal` as the body codec and C01's round trip in the place of `hC` (`SentC01`: the premises of
+`parse_marshal_c01` - non-empty signature, body in C01's domain, `oobFDs` None or `[]`, the receiver's descriptor
+list = the collected one - or of `parse_marshal_no_body`).  The expected body is C01's normal form of the sent
+body (`Code.plainList items`: tuples as lists, wrapper instances as plain values). -/
+theorem delivers_parsed_messages_c01 (na : Char → Bool) (maxLen : Nat) (hmax : maxLen ≤ Msg.Spec.maxMessage)
+    (fuel : Nat) (A : Auth α) (s : St α) (xs : List (Sent PyVal)) (reads : List Bytes)
+    (ha : s.authenticated = true) (hbuf : s.buffer = []) (hnext : s.nextMsgLen = 0)
+    (hxs : ∀ x ∈ xs, WithMsg.SentC01 Gen.Message.tables na maxLen fuel x)
+    (h : reads.flatten = (xs.map (·.msg.raw)).flatten) :
+    (run A s reads).2 = xs.map (fun x => Effect.msg x.msg.raw) ∧
+    (parseFrames Gen.Message.tables (Msg.wireCodec fuel) (msgsOf (run A s reads).2) (xs.map (·.fds))).map
+        (Except.map (Msg.Msg.view Gen.Message.tables))
+      = xs.map (fun x => .ok (x.expected Gen.Message.tables)) ∧
+    (run A s reads).1.buffer = [] := by
+  have hwf : ∀ m ∈ xs.map (·.msg.raw), Spec.WellFormed m := by
+    intro m hm
+    obtain ⟨x, hx, rfl⟩ := List.mem_map.1 hm
+    exact (sent_wellFormed_and_parses_c01 na maxLen hmax fuel x (hxs x hx)).1
+  have hd := delivers_messages_sent A s (xs.map (·.msg.raw)) reads ha hbuf hnext hwf h
+  refine ⟨by rw [hd.1, List.map_map]; rfl, ?_, hd.2⟩
+  rw [hd.1, WithMsg.msgsOf_map_msg]
+  exact WithMsg.parseFrames_sent _ _ xs
+    (fun x hx => (sent_wellFormed_and_parses_c01 na maxLen hmax fuel x (hxs x hx)).2)
+
+/-- The same about `receive` (Proto/Receive.lean) - the function the driver command `P` of Driver/C04.lean
+executes and the harness stream `parsed-after-framing` compares with the real `rawDBusMessageReceived` +
+`parseMessage`: a connection on which the receiver's descriptor list is `fds` at every delivery. -/
+theorem receive_delivers_sent_c01 (na : Char → Bool) (maxLen : Nat) (hmax : maxLen ≤ Msg.Spec.maxMessage)
+    (fuel : Nat) (A : Auth α) (s : St α) (xs : List (Sent PyVal)) (reads : List Bytes) (fds : Option (List PyVal))
+    (ha : s.authenticated = true) (hbuf : s.buffer = []) (hnext : s.nextMsgLen = 0)
+    (hxs : ∀ x ∈ xs, WithMsg.SentC01 Gen.Message.tables na maxLen fuel x) (hfds : ∀ x ∈ xs, x.fds = fds)
+    (h : reads.flatten = (xs.map (·.msg.raw)).flatten) :
+    (receive Gen.Message.tables (Msg.wireCodec fuel) A s reads fds).2.1 = xs.map (fun x => Effect.msg x.msg.raw) ∧
+    (receive Gen.Message.tables (Msg.wireCodec fuel) A s reads fds).2.2.map
+        (Except.map (Msg.Msg.view Gen.Message.tables))
+      = xs.map (fun x => .ok (x.expected Gen.Message.tables)) ∧
+    (receive Gen.Message.tables (Msg.wireCodec fuel) A s reads fds).1.buffer = [] := by
+  have hd := delivers_parsed_messages_c01 na maxLen hmax fuel A s xs reads ha hbuf hnext hxs h
+  refine ⟨hd.1, ?_, hd.2.2⟩
+  show (parseFramesConst _ _ (msgsOf (run A s reads).2) fds).map _ = _
+  have hm : xs.map (fun x => Effect.msg x.msg.raw) = (xs.map (·.msg.raw)).map Effect.msg := by
+    rw [List.map_map]; rfl
+  rw [hd.1, hm, WithMsg.msgsOf_map_msg]
+  exact WithMsg.parseFramesConst_sent _ _ xs fds hfds
+    (fun x hx => (sent_wellFormed_and_parses_c01 na maxLen hmax fuel x (hxs x hx)).2)
+
+/-- **C04 ∘ C03 behind a handshake.**  Handshake as in `handoff` (lines without CR LF, within the limit, the
+authenticator answering cont … cont success), followed by the sent messages `xs` (as in
+`delivers_parsed_messages`); the stream is cut ANYWHERE (the first messages may share a read with the final
+handshake line; message bytes may contain CR LF): the authenticator is handed exactly the handshake lines, the
+frames delivered are exactly those of `xs`, in order, each once, they parse to exactly the expected contents,
+and nothing stays buffered. -/
+theorem delivers_parsed_messages_after_handshake {β : Type} (C : Msg.BodyCodec β) (na : Char → Bool) (maxLen : Nat)
+    (hmax : maxLen ≤ Msg.Spec.maxMessage) (A : Auth α) (s : St α) (hs : List Bytes) (last : Bytes)
+    (xs : List (Sent β)) (reads : List Bytes) (a1 a' : α)
+    (hr : Ready s) (ha : s.authenticated = false) (hbuf : s.buffer = []) (hcl : s.closed = false)
+    (hnext : s.nextMsgLen = 0)
+    (hlines : ∀ l ∈ hs ++ [last], Spec.hasCRLF l = false ∧ l.length ≤ maxAuthLength)
+    (hrun : authRun A s.auth hs = some a1) (hlast : A.handle a1 last = (a', .success))
+    (hxs : ∀ x ∈ xs, WithMsg.SentOK Gen.Message.tables C na maxLen x)
+    (hne : reads ≠ []) (hreads : reads.flatten = Spec.unlines (hs ++ [last]) ++ (xs.map (·.msg.raw)).flatten) :
+    linesOf (run A s reads).2 = hs ++ [last] ∧
+    msgsOf (run A s reads).2 = xs.map (·.msg.raw) ∧
+    (parseFrames Gen.Message.tables C (msgsOf (run A s reads).2) (xs.map (·.fds))).map
+        (Except.map (Msg.Msg.view Gen.Message.tables))
+      = xs.map (fun x => .ok (x.expected Gen.Message.tables)) ∧
+    (run A s reads).1.buffer = [] := by
+  have hwf : ∀ m ∈ xs.map (·.msg.raw), Spec.WellFormed m := by
+    intro m hm
+    obtain ⟨x, hx, rfl⟩ := List.mem_map.1 hm
+    exact (sent_wellFormed_and_parses C na maxLen hmax x (hxs x hx)).1
+  have hd := delivers_messages_sent_after_handshake A s hs last (xs.map (·.msg.raw)) reads a1 a' hr ha hbuf hcl hnext
+    hlines hrun hlast hwf hne hreads
+  refine ⟨hd.1, hd.2.1, ?_, hd.2.2⟩
+  rw [hd.2.1]
+  exact WithMsg.parseFrames_sent _ C xs (fun x hx => (sent_wellFormed_and_parses C na maxLen hmax x (hxs x hx)).2)
+
+/-- ... behind a handshake, with C01's codec (no hypothesis about the codec). -/
+theorem delivers_parsed_messages_after_handshake_c01 (na : Char → Bool) (maxLen : Nat)
+    (hmax : maxLen ≤ Msg.Spec.maxMessage) (fuel : Nat) (A : Auth α) (s : St α) (hs : List Bytes) (last : Bytes)
+    (xs : List (Sent PyVal)) (reads : List Bytes) (a1 a' : α)
+    (hr : Ready s) (ha : s.authenticated = false) (hbuf : s.buffer = []) (hcl : s.closed = false)
+    (hnext : s.nextMsgLen = 0)
+    (hlines : ∀ l ∈ hs ++ [last], Spec.hasCRLF l = false ∧ l.length ≤ maxAuthLength)
+    (hrun : authRun A s.auth hs = some a1) (hlast : A.handle a1 last = (a', .success))
+    (hxs : ∀ x ∈ xs, WithMsg.SentC01 Gen.Message.tables na maxLen fuel x)
+    (hne : reads ≠ []) (hreads : reads.flatten = Spec.unlines (hs ++ [last]) ++ (xs.map (·.msg.raw)).flatten) :
+    linesOf (run A s reads).2 = hs ++ [last] ∧
+    msgsOf (run A s reads).2 = xs.map (·.msg.raw) ∧
+    (parseFrames Gen.Message.tables (Msg.wireCodec fuel) (msgsOf (run A s reads).2) (xs.map (·.fds))).map
+        (Except.map (Msg.Msg.view Gen.Message.tables))
+      = xs.map (fun x => .ok (x.expected Gen.Message.tables)) ∧
+    (run A s reads).1.buffer = [] := by
+  have hwf : ∀ m ∈ xs.map (·.msg.raw), Spec.WellFormed m := by
+    intro m hm
+    obtain ⟨x, hx, rfl⟩ := List.mem_map.1 hm
+    exact (sent_wellFormed_and_parses_c01 na maxLen hmax fuel x (hxs x hx)).1
+  have hd := delivers_messages_sent_after_handshake A s hs last (xs.map (·.msg.raw)) reads a1 a' hr ha hbuf hcl hnext
+    hlines hrun hlast hwf hne hreads
+  refine ⟨hd.1, hd.2.1, ?_, hd.2.2⟩
+  rw [hd.2.1]
+  exact WithMsg.parseFrames_sent _ _ xs
+    (fun x hx => (sent_wellFormed_and_parses_c01 na maxLen hmax fuel x (hxs x hx)).2)
+
+/-! ### The composed theorem on two concrete messages and a concrete 3-way split -/
+
+/-- `MethodCallMessage('/a', 'm', signature='i', body=[7])` - a method call with a body. -/
+def exCall : Msg.Call PyVal :=
+  .methodCall { path := some "/a".toList, member := some "m".toList, signature := some "i".toList,
+                body := some (.list [.int .plain 7]) }
+
+/-- `SignalMessage('/a', 'm', 'a.b')` - a signal without body. -/
+def exSignal : Msg.Call PyVal :=
+  .signal { path := some "/a".toList, member := some "m".toList, interface := some "a.b".toList }
+
+/-- The 60 bytes the real constructor produces for `exCall` as the first message of a process (serial 1). -/
+def exCallBytes : Bytes :=
+  [108, 1, 0, 1, 4, 0, 0, 0, 1, 0, 0, 0, 39, 0, 0, 0, 1, 1, 111, 0, 2, 0, 0, 0, 47, 97, 0, 0, 0, 0, 0, 0,
+   3, 1, 115, 0, 1, 0, 0, 0, 109, 0, 0, 0, 0, 0, 0, 0, 8, 1, 103, 0, 1, 105, 0, 0, 7, 0, 0, 0]
+
+/-- The 64 bytes of `exSignal` as the second message (serial 2). -/
+def exSignalBytes : Bytes :=
+  [108, 4, 0, 1, 0, 0, 0, 0, 2, 0, 0, 0, 42, 0, 0, 0, 1, 1, 111, 0, 2, 0, 0, 0, 47, 97, 0, 0, 0, 0, 0, 0,
+   2, 1, 115, 0, 3, 0, 0, 0, 97, 46, 98, 0, 0, 0, 0, 0, 3, 1, 115, 0, 1, 0, 0, 0, 109, 0, 0, 0, 0, 0, 0, 0]
+
+/-- `delivers_parsed_messages_c01` instantiated: the two constructor calls above, made one after the other on the
+counter of a fresh process with C01's codec, construct messages whose bytes are the 60 + 64 bytes above; the 124-byte
+stream is cut into THREE reads - after byte 7 (inside the fixed header of the call), after byte 70 (inside the fixed
+header of the signal), the rest.  Every premise of the theorem is discharged here (`SentC01` for both messages: the
+relational premises of `parse_marshal_c01` for the call, those of `parse_marshal_no_body` for the signal), and the
+theorem yields: exactly two deliveries, the two frames, in order; parsed: a method call (type 1) with serial 1 and body
+`[7]`, then a signal (type 4) with serial 2 and no body; nothing left in the buffer. -/
+example :
+    ∃ (st1 st2 : Msg.St) (m1 m2 : Msg.Msg PyVal),
+      Msg.construct Gen.Message.tables (Msg.wireCodec 2) (fun _ => false) Gen.Message.maxMsgLen
+        (Msg.St.init Gen.Message.tables) exCall = (st1, .ok m1) ∧
+      Msg.construct Gen.Message.tables (Msg.wireCodec 2) (fun _ => false) Gen.Message.maxMsgLen st1 exSignal
+        = (st2, .ok m2) ∧
+      m1.raw = exCallBytes ∧ m2.raw = exSignalBytes ∧
+      (run okAuth { St.init true () with authenticated := true }
+          [(exCallBytes ++ exSignalBytes).take 7, ((exCallBytes ++ exSignalBytes).drop 7).take 63,
+           (exCallBytes ++ exSignalBytes).drop 70]).2 = [.msg exCallBytes, .msg exSignalBytes] ∧
+      ((parseFrames Gen.Message.tables (Msg.wireCodec 2)
+          (msgsOf (run okAuth { St.init true () with authenticated := true }
+            [(exCallBytes ++ exSignalBytes).take 7, ((exCallBytes ++ exSignalBytes).drop 7).take 63,
+             (exCallBytes ++ exSignalBytes).drop 70]).2) [some [], none]).map
+          (Except.map (Msg.Msg.view Gen.Message.tables))).map
+          (Except.map fun v => (v.messageType, v.serial, v.expectReply, v.body))
+        = [.ok (1, 1, true, some (.list [.int .plain 7])), .ok (4, 2, true, none)] ∧
+      (run okAuth { St.init true () with authenticated := true }
+          [(exCallBytes ++ exSignalBytes).take 7, ((exCallBytes ++ exSignalBytes).drop 7).take 63,
+           (exCallBytes ++ exSignalBytes).drop 70]).1.buffer = [] := by
+  -- the first constructor call
+  obtain ⟨st1, m1, h1⟩ := WithMsg.construct_shape (T := Gen.Message.tables) (C := Msg.wireCodec 2)
+    (na := fun _ => false) (maxLen := Gen.Message.maxMsgLen) (st := Msg.St.init Gen.Message.tables) (c := exCall)
+    (by decide +kernel)
+  have e1 : (Msg.construct Gen.Message.tables (Msg.wireCodec 2) (fun _ => false) Gen.Message.maxMsgLen
+      (Msg.St.init Gen.Message.tables) exCall).1 = ⟨2⟩ := by decide +kernel
+  have f1 : (Msg.construct Gen.Message.tables (Msg.wireCodec 2) (fun _ => false) Gen.Message.maxMsgLen
+      (Msg.St.init Gen.Message.tables) exCall).2.toOption.map
+        (fun m => (m.raw, Gen.Message.tables.messageType m.cls, m.serial, m.expectReply, Msg.truthy (m.attrs .signature)))
+      = some (exCallBytes, 1, 1, true, true) := by decide +kernel
+  rw [h1] at e1 f1
+  simp only [Except.toOption, Option.map_some, Option.some.injEq, Prod.mk.injEq] at e1 f1
+  subst e1
+  -- the second one, on the advanced counter
+  obtain ⟨st2, m2, h2⟩ := WithMsg.construct_shape (T := Gen.Message.tables) (C := Msg.wireCodec 2)
+    (na := fun _ => false) (maxLen := Gen.Message.maxMsgLen) (st := ⟨2⟩) (c := exSignal) (by decide +kernel)
+  have f2 : (Msg.construct Gen.Message.tables (Msg.wireCodec 2) (fun _ => false) Gen.Message.maxMsgLen
+      ⟨2⟩ exSignal).2.toOption.map
+        (fun m => (m.raw, Gen.Message.tables.messageType m.cls, m.serial, m.expectReply, Msg.truthy (m.attrs .signature)))
+      = some (exSignalBytes, 4, 2, true, false) := by decide +kernel
+  rw [h2] at f2
+  simp only [Except.toOption, Option.map_some, Option.some.injEq, Prod.mk.injEq] at f2
+  obtain ⟨r1, t1, s1, er1, g1⟩ := f1
+  obtain ⟨r2, t2, s2, er2, g2⟩ := f2
+  -- the premises of the theorem
+  let x1 : Sent PyVal := ⟨m1, some [], .list [.int .plain 7]⟩
+  let x2 : Sent PyVal := ⟨m2, none, .none⟩
+  have hrep : Code.RepFields [] [.int 7] false [.basic .i] [.int .plain 7] 0 0 := by
+    refine ⟨_, _, _, _, 0, rfl, rfl, ?_, ⟨rfl, rfl, rfl⟩⟩
+    simp only [Code.Rep]
+    exact ⟨.i, rfl, Or.inr ⟨by decide, ⟨_, rfl⟩, rfl⟩⟩
+  have hx1 : WithMsg.SentC01 Gen.Message.tables (fun _ => false) Gen.Message.maxMsgLen 2 x1 :=
+    ⟨Msg.St.init Gen.Message.tables, ⟨2⟩, exCall, by decide, h1,
+      Or.inr ⟨[.basic .i], .list [.int .plain 7], [.int .plain 7], [.int 7], [], [7, 0, 0, 0], rfl, rfl, rfl,
+        by decide, rfl, Or.inl rfl, by decide, rfl, hrep, by simp [Code.KeysOKList, Code.KeysOK],
+        by decide +kernel, by decide⟩⟩
+  have hx2 : WithMsg.SentC01 Gen.Message.tables (fun _ => false) Gen.Message.maxMsgLen 2 x2 :=
+    ⟨⟨2⟩, st2, exSignal, by decide, h2, Or.inl (Or.inl rfl)⟩
+  have hflat : [(exCallBytes ++ exSignalBytes).take 7, ((exCallBytes ++ exSignalBytes).drop 7).take 63,
+      (exCallBytes ++ exSignalBytes).drop 70].flatten = ([x1, x2].map (·.msg.raw)).flatten := by
+    show _ = ([m1.raw, m2.raw] : List Bytes).flatten
+    rw [r1, r2]
+    decide
+  obtain ⟨c1, c2, c3⟩ := delivers_parsed_messages_c01 (fun _ => false) Gen.Message.maxMsgLen (by decide) 2 okAuth
+    { St.init true () with authenticated := true } [x1, x2] _ rfl rfl rfl
+    (by intro x hx; simp only [List.mem_cons, List.not_mem_nil, or_false] at hx; rcases hx with rfl | rfl <;> assumption)
+    hflat
+  refine ⟨⟨2⟩, st2, m1, m2, h1, h2, r1, r2, ?_, ?_, c3⟩
+  · rw [c1]; show [Effect.msg m1.raw, Effect.msg m2.raw] = _; rw [r1, r2]
+  · have := congrArg (List.map (Except.map fun (v : Msg.View PyVal) => (v.messageType, v.serial, v.expectReply, v.body))) c2
+    refine Eq.trans this ?_
+    show [Except.ok (Gen.Message.tables.messageType m1.cls, m1.serial, m1.expectReply,
+            if Msg.truthy (m1.attrs .signature) then some (PyVal.list [.int .plain 7]) else none),
+          Except.ok (Gen.Message.tables.messageType m2.cls, m2.serial, m2.expectReply,
+            if Msg.truthy (m2.attrs .signature) then some PyVal.none else none)] = _
+    rw [t1, s1, er1, g1, t2, s2, er2, g2]
+    rfl
+
+/-- A body codec for the instances of the general theorems: bodies are byte strings that travel as they are. -/
+def idCodec : Msg.BodyCodec Bytes where
+  marshal := fun _ body fds => .ok (body.getD [], fds)
+  unmarshal := fun _ raw _ _ => .ok raw
+
+/-- `SentOK` (the premise of `delivers_parsed_messages` / `…_after_handshake`) is satisfiable: with the byte-identity
+codec the hypothesis `hC` holds for EVERY constructed message, whatever the receiver's descriptor list. -/
+example (na : Char → Bool) (maxLen : Nat) (st st' : Msg.St) (c : Msg.Call Bytes) (m : Msg.Msg Bytes)
+    (fds : Option (List PyVal)) (hs : 1 ≤ st.nextSerial) (hsig : Msg.Main.SigNoNul c)
+    (h : Msg.construct Gen.Message.tables idCodec na maxLen st c = (st', .ok m)) :
+    WithMsg.SentOK Gen.Message.tables idCodec na maxLen ⟨m, fds, m.body.getD []⟩ :=
+  ⟨st, st', c, hs, hsig, h, fun _ _ _ => ⟨_, _, rfl, rfl⟩⟩
+
+/-- ... and such constructions exist: `ErrorMessage('a.E', 5, signature='ay', body=<3 bytes>)` constructs, its
+signature has no NUL, and `wellFormed_of_constructed` gives the well-formedness of its frame. -/
+example : ∃ st' m, Msg.construct Gen.Message.tables idCodec (fun _ => false) Gen.Message.maxMsgLen
+      (Msg.St.init Gen.Message.tables)
+      (.error { errorName := some "a.E".toList, replySerial := 5, signature := some "ay".toList, body := some [1, 2, 3] })
+        = (st', .ok m) ∧ Spec.WellFormed m.raw := by
+  obtain ⟨st', m, h⟩ := WithMsg.construct_shape (T := Gen.Message.tables) (C := idCodec) (na := fun _ => false)
+    (maxLen := Gen.Message.maxMsgLen) (st := Msg.St.init Gen.Message.tables)
+    (c := .error { errorName := some "a.E".toList, replySerial := 5, signature := some "ay".toList, body := some [1, 2, 3] })
+    (by decide +kernel)
+  refine ⟨st', m, h, wellFormed_of_constructed idCodec _ _ (by decide) _ st' _ m (by decide) ?_ h⟩
+  intro sg hsg
+  cases hsg
+  rfl
+
 end Txdbus.Proto
 
 open Txdbus.Proto in
@@ -334,3 +664,19 @@ open Txdbus.Proto in
 #print axioms prefix_recursion_depth_grows
 open Txdbus.Proto in
 #print axioms prefix_handoff_loses_message
+open Txdbus.Proto in
+#print axioms wellFormed_of_constructed
+open Txdbus.Proto in
+#print axioms sent_wellFormed_and_parses
+open Txdbus.Proto in
+#print axioms sent_wellFormed_and_parses_c01
+open Txdbus.Proto in
+#print axioms delivers_parsed_messages
+open Txdbus.Proto in
+#print axioms delivers_parsed_messages_c01
+open Txdbus.Proto in
+#print axioms receive_delivers_sent_c01
+open Txdbus.Proto in
+#print axioms delivers_parsed_messages_after_handshake
+open Txdbus.Proto in
+#print axioms delivers_parsed_messages_after_handshake_c01
